@@ -617,7 +617,13 @@ func (g *gen) opMeta() {
 		}
 		return Dict()
 	}
-	switch g.r.IntN(22) {
+	pick := g.r.IntN(22)
+	if g.profile == "history" && pick >= 6 && pick <= 8 {
+		// several sessions ending in one step leave in scheduler order, and a
+		// history store would record that order
+		pick = 0
+	}
+	switch pick {
 	case 0:
 		g.metaCall(s, "wamp.session.count", Val{}, Val{})
 	case 1:
